@@ -1,6 +1,8 @@
 /- Driver for C10: the real control.c / constmap.c / qmail-send.c getcontrols, rewrite, senderadd, comm_write,
    todo_do and main-loop HUP handling (harness/c10_route.c) against `Nq.Rewrite`; the oracle is the documented
-   rule set `Nq.Route` (routeSpec, verpSpec, specCfg, specHup) evaluated on the implementation's outputs.
+   rule set `Nq.Route` (routeSpec, verpSpec, specCfg, specHup, specTodo, specTrace) evaluated on the implementation's
+   outputs. Real-daemon scenarios (kind=S) are replayed event by event through the monitor `accept`/`acceptAll`
+   (DISAGREE) and judged by `specJudge`/`specStep`/`specTrace` (ORACLE) - the two sides of theorem C10_trace.
    Line formats: see harness/c10_route.c. -/
 import Drv.Util
 import Nq.Rewrite
@@ -26,8 +28,7 @@ def filesOf (l : List String) : Option Files :=
   | [some a, some b, some c, some d, some e] => some ⟨a, b, c, d, e⟩
   | _ => none
 
-def nulFree (f : Files) : Bool :=
-  [f.me, f.env, f.locals, f.ph, f.vdoms].all (fun o => match o with | some s => !s.contains 0 | none => true)
+def nulFree (f : Files) : Bool := nulFreeB f
 
 def entsEq (a b : List Ent) : Bool := a == b
 
@@ -41,64 +42,106 @@ def oracleFail (st : Stats) (msg : String) : IO Stats := do
   IO.println s!"ORACLE {msg}"
   return { st with oracle := st.oracle + 1 }
 
-def cfgOk (c : Cfg) : Bool := cfgNoDup c
+/-- the stated domain of `C10_spec`: no key listed twice in virtualdomains (repeated keys in locals and
+percenthack are harmless: `listed` does not care) -/
+def cfgOk (c : Cfg) : Bool := noDupKeys c.vdoms
 
 /-- spec-level view of the C buffers: the entries they contain -/
 def bufCfgEq (raw : RawCfg) (c : Cfg) : Bool :=
   raw.env == c.env && entsEq (parseEntries raw.ph false) c.ph &&
   entsEq (parseEntries raw.locals false) c.locals && entsEq (parseEntries raw.vdoms true) c.vdoms
 
-def tRecips (todo : Bytes) : List Bytes :=
-  (chunks todo).filterMap (fun r => match r with | t :: b => if t == TEE then some b else none | [] => none)
-
-def todoWellFormed (todo : Bytes) : Bool :=
-  (chunks todo).all (fun r => match r with | t :: _ => t == TEE || t == 117 || t == 112 || t == 70 | [] => false)
-
 def fileField (s : String) : Option Bytes :=
   if s == "~" then some [] else unhex s
 
-/-- one scenario: fold over the step tokens -/
-partial def scenario (st : Stats) (inh : String) (f0 : Files) (d : Daemon) (spec : Option Cfg) :
-    List String → IO Stats
-  | [] => return st
+/-- state of one real-daemon scenario: the monitor `accept` (Nq.Rewrite) and the documented state
+`SpecD` (Nq.Route) are stepped over the same observed events -/
+structure Scen where
+  inh : String
+  f0 : Files
+  d : Daemon
+  sp : Option SpecD
+  evs : List Ev := []          -- observed trace, reversed
+  modelOk : Bool := true
+  specOk : Bool := true
+  hups : Nat := 0
+  stale : Bool := false        -- the files on disk were edited after the last reread
+
+def showOut : Option TodoOut → String
+  | some o => s!"{hex o.info}:{hex o.loc}:{hex o.rem}"
+  | none => "fail"
+
+/-- feed one observed event to the monitor (DISAGREE) and to the documented predicate (ORACLE) -/
+def feed (st : Stats) (sc : Scen) (e : Ev) : IO (Stats × Scen) := do
+  let mut st := st
+  let mut sc := { sc with evs := e :: sc.evs }
+  match accept sc.d e with
+  | some d' => sc := { sc with d := d' }
+  | none =>
+    sc := { sc with modelOk := false }
+    match e with
+    | .msg todo out =>
+      st ← disagree st s!"kind=S in={sc.inh} todo={hex todo} impl={showOut out} model={showOut (todoDo sc.d.cfg.htLookups sc.d.cfg.env todo)} stdin={sc.inh}"
+    | _ => st ← disagree st s!"kind=S in={sc.inh} event rejected by the monitor"
+  match sc.sp with
+  | some s =>
+    if !specJudge s e then
+      sc := { sc with specOk := false }
+      match e with
+      | .msg todo out =>
+        st ← oracleFail st s!"kind=S in={sc.inh} todo={hex todo} impl={showOut out} spec={showOut (specTodo s.cfg todo)} stdin={sc.inh}"
+      | _ => st ← oracleFail st s!"kind=S in={sc.inh} event judged false"
+    else
+      match e with
+      | .msg _ out =>
+        if !cfgOk s.cfg then st := st.bump "S_oracle_skipped_dup"
+        else match out with
+          | some o => if !o.loc.isEmpty && !o.rem.isEmpty then st := st.bump "S_msg_both_channels"
+          | none => st := st.bump "S_msg_failed_judged"
+      | _ => pure ()
+    sc := { sc with sp := specStep sc.f0 s e }
+  | none => pure ()
+  return (st, sc)
+
+/-- one scenario: fold over the step tokens. `H` = files written, SIGHUP delivered while the daemon was
+blocked in select(), daemon seen idle in select() again: events edit, hup, top. `E` = files written, no
+signal. `M` = one message preprocessed (`! ! !` = left in todo/, no clean request: `goto fail`). -/
+partial def scenario (st : Stats) (d0 : Daemon) (sc : Scen) : List String → IO Stats
+  | [] => do
+    -- the whole observed trace through the two predicates of theorem C10_trace, literally
+    let evs := sc.evs.reverse
+    let mut st := st
+    if (acceptAll d0 evs).isSome != sc.modelOk then
+      st ← disagree st s!"kind=S in={sc.inh} acceptAll and the step-wise monitor differ"
+    if specTrace sc.f0 (specStart sc.f0) evs != sc.specOk then
+      st ← oracleFail st s!"kind=S in={sc.inh} specTrace={specTrace sc.f0 (specStart sc.f0) evs} stdin={sc.inh}"
+    return st
   | "M" :: todoh :: infoh :: loch :: remh :: rest => do
-    match unhex todoh, fileField infoh, fileField loch, fileField remh with
-    | some todo, some info, some loc, some rem =>
+    let out : Option (Option TodoOut) :=
+      if infoh == "!" && loch == "!" && remh == "!" then some none
+      else match fileField infoh, fileField loch, fileField remh with
+        | some info, some loc, some rem => some (some ⟨info, loc, rem⟩)
+        | _, _, _ => none
+    match unhex todoh, out with
+    | some todo, some o =>
       let mut st := st.bump "S_msg"
-      let d' := d.top
-      let model := todoDo d'.cfg.htLookups d'.cfg.env todo
-      if model != some ⟨info, loc, rem⟩ then
-        let ms := match model with
-          | some o => s!"{hex o.info}:{hex o.loc}:{hex o.rem}"
-          | none => "fail"
-        st ← disagree st s!"kind=S in={inh} todo={todoh} impl={infoh}:{loch}:{remh} model={ms} stdin={inh}"
-      match spec with
-      | some c =>
-        if cfgOk c && todoWellFormed todo then
-          let rs := tRecips todo
-          let el := specChan c .loc rs
-          let er := specChan c .rem rs
-          if el != loc || er != rem then
-            st ← oracleFail st s!"kind=S in={inh} todo={todoh} impl={loch}:{remh} spec={hex el}:{hex er} stdin={inh}"
-          else if !loc.isEmpty && !rem.isEmpty then st := st.bump "S_msg_both_channels"
-        else st := st.bump "S_oracle_skipped_dup"
-      | none => pure ()
-      scenario st inh f0 d' spec rest
-    | _, _, _, _ => disagree st s!"kind=S in={inh} preprocessing-failed-or-unparsable todo={todoh} {infoh} {loch} {remh}"
+      if o.isNone then st := st.bump "S_msg_failed"
+      if sc.stale then st := st.bump (if sc.hups > 0 then "S_msg_files_edited_after_hup" else "S_msg_files_edited_no_hup")
+      let (st', sc') ← feed st sc (.msg todo o)
+      scenario st' d0 sc' rest
+    | _, _ => disagree st s!"kind=S in={sc.inh} daemon-timeout-or-unparsable todo={todoh} {infoh} {loch} {remh}"
   | k :: a :: b :: c :: e :: f :: rest => do
-    if k != "H" && k != "E" then return (← disagree st s!"kind=S in={inh} bad-step {k}")
+    if k != "H" && k != "E" then return (← disagree st s!"kind=S in={sc.inh} bad-step {k}")
     match filesOf [a, b, c, e, f] with
     | some nf =>
-      let d1 := { d with files := nf }
+      let (st1, sc1) ← feed st sc (.edit nf)
       if k == "H" then
-        let d2 := { d1 with flagread := true }
-        let spec' := match spec with
-          | some sc => if nulFree nf then some (specHup sc f0 nf) else none
-          | none => none
-        scenario (st.bump "S_hup") inh f0 d2 spec' rest
-      else scenario (st.bump "S_edit_nohup") inh f0 d1 spec rest
-    | none => disagree st s!"kind=S in={inh} unparsable files"
-  | _ => disagree st s!"kind=S in={inh} truncated (daemon died or timed out)"
+        let (st2, sc2) ← feed st1 sc1 .hup
+        let (st3, sc3) ← feed st2 sc2 .top
+        scenario (st3.bump "S_hup") d0 { sc3 with hups := sc3.hups + 1, stale := false } rest
+      else scenario (st1.bump "S_edit_nohup") d0 { sc1 with stale := true } rest
+    | none => disagree st s!"kind=S in={sc.inh} unparsable files"
+  | _ => disagree st s!"kind=S in={sc.inh} truncated (daemon died or timed out)"
 
 def handle (ref : IO.Ref Cur) (st : Stats) (line : String) : IO Stats := do
   let fs := fields line
@@ -203,13 +246,16 @@ def handle (ref : IO.Ref Cur) (st : Stats) (line : String) : IO Stats := do
         let ms := match m with | some x => "1:" ++ hex x | none => "0"
         st ← disagree st s!"kind=K in={kh} buf={bh} fc={fcs} impl={found}:{vh} model={ms} stdin=K,{bh},{fcs},{kh}"
       let es := parseEntries buf fc
+      -- membership ("is listed", all that locals/percenthack use) needs no hypothesis: C10_constmap_listed
+      if (found == "1") != listed es key then
+        st ← oracleFail st s!"kind=K in={kh} buf={bh} fc={fcs} impl={found}:{vh} listed={listed es key} stdin=K,{bh},{fcs},{kh}"
       if noDupKeys es then
         let good := match entryFor es key with
           | some x => found == "1" && (!fc || x == v)
           | none => found == "0"
         if !good then st ← oracleFail st s!"kind=K in={kh} buf={bh} fc={fcs} impl={found}:{vh} stdin=K,{bh},{fcs},{kh}"
         if found == "1" then st := st.bump "K_found"
-      else st := st.bump "K_oracle_skipped_dup"
+      else st := st.bump (if fc then "K_value_oracle_skipped_dup" else "K_dup_listed_only")
       return st
     | _, _, _ => disagree st s!"unparsable line {line}"
   | ["X", kh, hs] =>
@@ -235,14 +281,14 @@ def handle (ref : IO.Ref Cur) (st : Stats) (line : String) : IO Stats := do
     | some f =>
       let inh := ",".intercalate ("S" :: a :: b :: c :: d :: e :: steps.filter (fun t => t != ""))
       let mut st := st.bump "S"
+      -- oracle (C10_start): the daemon starts iff the documents say so (NUL-free control directory)
+      if nulFreeB f && (specStart f).isSome != (started == "1") then
+        st ← oracleFail st s!"kind=S in={inh} started={started} documented={(specStart f).isSome} stdin={inh}"
       match start f with
       | some dm =>
         if started != "1" then
           return (← disagree st s!"kind=S in={inh} the daemon did not start (model: starts)")
-        let spec := if nulFree f then specCfg f else none
-        if nulFree f && spec.isNone then
-          st ← oracleFail st s!"kind=S in={inh} the daemon started without locals and me"
-        scenario st inh f dm spec steps
+        scenario st dm { inh := inh, f0 := f, d := dm, sp := specStart f } steps
       | none =>
         if started != "0" then disagree st s!"kind=S in={inh} the daemon started (model: refuses)"
         else return st.bump "S_refused"
